@@ -333,7 +333,10 @@ def genCase (profile : String) : G Unit := do
 
 def genMain (seed count : Nat) (profile : String) (cfg : Cfg) : IO Unit := do
   let stdout ← IO.getStdout
-  let mut rng : Rng := ⟨UInt64.ofNat (seed * 0x9E3779B97F4A7C15 + 0x1234567)⟩
+  -- the generator's state advances by a constant per draw: hash the seed so that different seeds
+  -- start at unrelated points of the cycle (adjacent starting points give overlapping streams)
+  let r0 : Rng := ⟨UInt64.ofNat (seed * 0x9E3779B97F4A7C15 + 0x1234567)⟩
+  let mut rng : Rng := ⟨(r0.next).2 ^^^ ((r0.next).1.next).2 <<< 1⟩
   for _ in [0:count] do
     let g0 : GSt := { rng := rng, d := { cfg := cfg } }
     let (_, g) := (genCase profile).run g0
